@@ -6,6 +6,9 @@ use crate::engine::{CaseReport, CheckResult, Engine};
 pub fn check_history(h: &History) -> CheckResult {
     let n = h.replicas as usize;
     let mut w = World::new(n);
+    for r in &mut w.realizers {
+        r.stale_old = true;
+    }
     let mut rep = CaseReport::default();
     let mut flags = RunFlags::default();
     run_actions(&mut w, &h.actions, &mut rep, &mut flags)?;
